@@ -73,6 +73,11 @@ def c16_job(job):
                 res["machinery"] = "greedy verdict (%s) differs from exhaustive reachability (%s)" % (solvable, reach)
                 return res
         if not solvable:
+            os.makedirs(common.REPLAY_DIR, exist_ok=True)
+            rp = os.path.join(common.REPLAY_DIR, "C16-%s.tla" % cs["name"])
+            with open(rp, "w") as fh:
+                fh.write(render_scenario_tla(cs))
+            res["replay"] = rp
             return res
         trace = os.path.join(wd, "trace.ndjson")
         rec = Recorder(trace, len(cs["hosts"]))
@@ -164,7 +169,7 @@ def check_c16(prop, tier, seed):
             solv += 1
         elif not corpus_case:
             v.violation("C16: scenario %s is unsolvable - the greedy closure of the reference semantics never holds "
-                        "root on every sensitive host" % r["name"], "scenario:" + r["name"])
+                        "root on every sensitive host" % r["name"], r.get("replay", "scenario:" + r["name"]))
         for f in r["fails"]:
             if f[0] == "C16" or not corpus_case:
                 v.violation("C16: replaying the plan on %s: %s.%s fails at call %d" % (r["name"], f[0], f[1], f[2]),
@@ -433,3 +438,24 @@ def check_c20(prop, tier, seed):
                samples=per[:3], per_topology=per, known_findings_matched=len(v.known))
     common.write_evidence(prop, tier, seed, "model_checking", cov, time.time() - t0, len(v.violations))
     return v.finish()
+
+
+def replay_c16(prop, path):
+    """path = saved Scenario.tla of an unsolvable scenario (re-run the planner) or a saved trace (re-run the monitor)"""
+    if path.endswith(".tla"):
+        wd = tlc.scratch_dir()
+        try:
+            with open(path) as fh:
+                tla = fh.read()
+            tlc.prepare(wd, tla)
+            r = tlc.run(wd, "NASimPlan", PLAN_CFG % ("greedy", "INVARIANT NoPlan"), workers=1, timeout=3600, heap="4g")
+            if "Invariant NoPlan is violated" in r.out:
+                print("OK property=C16 (replay): a plan exists")
+                return 0
+            print("no counterexample to ~Goal: the scenario is unsolvable")
+            print("VIOLATION property=C16 replay=%s" % path)
+            return 1
+        finally:
+            shutil.rmtree(wd, ignore_errors=True)
+    from harness.main import replay_dynamic
+    return replay_dynamic(prop, path)
